@@ -246,7 +246,7 @@ def c11_text(t, dump, tier):
             holder = {}
 
             def visit(c, tok=tok):
-                M = make_machine(c)
+                M = make_machine(c, fuel=400_000)
                 snap = Snapshot(prog, dump).load()
                 asm, info = decorate(M, snap, sym_names={tok} if tok is not None else False, text=text)
                 holder['info'], holder['M'] = info, M
@@ -464,7 +464,7 @@ def c13_text(t, dump, tier):
                     cause = 'clock' if d.startswith('clock') else 'map-order@' + d.split('@')[1].split('#')[0]
                     causes.setdefault(cause, (names, d))
         for cause, (names, d) in causes.items():
-            res.append(BFinding('C13', 'gen:' + g, '*', 'nondet:' + cause[:160],
+            res.append(BFinding('C13', 'gen:' + g, t.tag, 'nondet:' + cause[:160],
                                 'two runs give different output for %s (choice: %s), e.g. text %s' % (names[:3], d, t.tag), {'text': t.text, 'files': names[:5]}))
     return res, stats
 
@@ -816,6 +816,23 @@ def finish(prop, tier, seed, t0, fam, results, update_known, extra_cov=None):
             setattr(solver, k, getattr(solver, k) + v)
         for f in r['findings']:
             bysig.setdefault(f['sig'], []).append(f)
+    if prop == 'C13':
+        # one finding per (generator, cause); its identity includes the exact set of affected texts, so that a change which makes
+        # a known cause show up on further programs is a new finding
+        grouped = collections.OrderedDict()
+        for sg, fs in bysig.items():
+            f = fs[0]
+            grouped.setdefault((f['locus'], sg.split('|')[-1]), []).append(f)
+        bysig = collections.OrderedDict()
+        for (locus, sym), fs in grouped.items():
+            tags = sorted(set(f['tag'] for f in fs))
+            h = hashlib.sha1('\n'.join(tags).encode()).hexdigest()[:10]
+            sg = 'C13|%s|texts=%d:%s|%s' % (locus, len(tags), h, sym)
+            f0 = dict(fs[0])
+            f0['sig'] = f0['signature'] = sg
+            f0['detail'] = '%s; affected texts (%d): %s' % (f0['detail'], len(tags), ', '.join(tags[:12]))
+            f0['affected'] = tags
+            bysig[sg] = [f0]
     # replay before reporting (C11): witnesses must crash natively
     confirm = {}
     new = [(s, fs) for s, fs in bysig.items() if s not in known]
